@@ -499,6 +499,28 @@ func checkUDPSlice(c *Check, p *Program, rule string, udp *ssa.Function) {
 			read = call
 		}
 	})
+	// the read buffer holds the largest frame this library can itself encode: header 6 + tunnelling
+	// header 4 + cEMI code 1 + additional info 1+255 + control/addresses 6 + transport unit 2+255 = 530
+	if read != nil && rule == "C16.T1" {
+		const largestFrame = 530
+		size := int64(-1)
+		if rs, ok := read.Common().Args[1].(*ssa.Slice); ok {
+			if at, ok := deref(rs.X.Type()).Underlying().(*types.Array); ok {
+				size = at.Len()
+			}
+			if mk, ok := rs.X.(*ssa.MakeSlice); ok {
+				if k, isK := constInt(mk.Len); isK {
+					size = k
+				}
+			}
+		}
+		if mk, ok := read.Common().Args[1].(*ssa.MakeSlice); ok {
+			if k, isK := constInt(mk.Len); isK {
+				size = k
+			}
+		}
+		c.Decide(size >= largestFrame, rule, FuncName(udp)+" receive buffer holds the largest frame", p.InstrPos(read), fmt.Sprintf("%d bytes >= %d", size, largestFrame), fmt.Sprintf("the datagram buffer has %d bytes (unknown: -1); a well-formed frame of up to %d bytes (additional info and application data at their 255-byte limits) is truncated by the read and dropped", size, largestFrame))
+	}
 	instrsOf(udp, func(in ssa.Instruction) {
 		if !staticCallTo(in, unpack) {
 			return
